@@ -540,13 +540,15 @@ def elementwise(f, *ops, sort=None):
     if any(isinstance(o, np.ndarray) for o in ops):
         raise EngineLimit("n-d concrete array meets a SymArray")
 
+    # snapshot the element functions now: operands may be mutated in place later (a += b rebinds a._elem to
+    # the function built here, which must not refer back to itself)
+    snap = [o._elem if isinstance(o, SymArray) else (o.val if isinstance(o, MaskedSel) else None) for o in ops]
+
     def mk(i):
         vals = []
-        for o in ops:
-            if isinstance(o, SymArray):
-                vals.append(wrap(o._elem(i)))
-            elif isinstance(o, MaskedSel):
-                vals.append(wrap(o.val(i)))
+        for o, e in zip(ops, snap):
+            if e is not None:
+                vals.append(wrap(e(i)))
             else:
                 vals.append(o)
         r = f(*vals)
